@@ -1,0 +1,139 @@
+//go:build verif
+
+package font
+
+import (
+	"github.com/go-text/typesetting/font/opentype/tables"
+)
+
+// Verification hooks for property C10, third part (variable fonts: coordinate normalisation,
+// item variation stores, gvar deltas).  Add-only.
+
+// VerifNormalizeWith runs Font.NormalizeVariations on a font that only has the given
+// (parsed) 'fvar' and 'avar' tables.
+func VerifNormalizeWith(fv tables.Fvar, av tables.Avar, coords []float32) []VarCoord {
+	f := &Font{fvar: newFvar(fv), avar: av}
+	return f.NormalizeVariations(coords)
+}
+
+// VerifDesignCoords runs fvar.getDesignCoordsDefault.
+func (f *Font) VerifDesignCoords(variations []Variation) []float32 {
+	return f.fvar.getDesignCoordsDefault(variations)
+}
+
+// VerifMvarDelta returns mvar.getVar(tag, coords).
+func (f *Font) VerifMvarDelta(tag Tag, coords []VarCoord) float32 {
+	return f.mvar.getVar(tag, coords)
+}
+
+// VerifHasHVAR / VerifHasVVAR tell whether the table was kept by NewFont.
+func (f *Font) VerifHasHVAR() bool { return f.hvar != nil }
+func (f *Font) VerifHasVVAR() bool { return f.vvar != nil }
+
+// VerifTupleData is what parseGlyphVariationSerializedData stores for one tuple variation.
+type VerifTupleData struct {
+	AllPoints bool     // pointNumbers == nil
+	Points    []uint16 // pointNumbers
+	Deltas    []int16
+}
+
+func verifTupleData(tvs []tupleVariation) []VerifTupleData {
+	out := make([]VerifTupleData, len(tvs))
+	for i, t := range tvs {
+		out[i] = VerifTupleData{AllPoints: t.pointNumbers == nil, Points: t.pointNumbers, Deltas: t.deltas}
+	}
+	return out
+}
+
+// VerifGvarTupleData returns the decoded point numbers and deltas of every tuple variation
+// of the glyph, as NewFont stored them.
+func (f *Font) VerifGvarTupleData(gid GID) ([]VerifTupleData, bool) {
+	if int(gid) >= len(f.gvar.variations) {
+		return nil, false
+	}
+	return verifTupleData(f.gvar.variations[gid]), true
+}
+
+// VerifParsePointNumbers runs parsePointNumbers; rest is the number of bytes left.
+func VerifParsePointNumbers(data []byte) (points []uint16, isNil bool, rest int, err error) {
+	pts, r, err := parsePointNumbers(data)
+	return pts, pts == nil, len(r), err
+}
+
+// VerifUnpackDeltas runs unpackDeltas.
+func VerifUnpackDeltas(data []byte, count int) ([]int16, error) { return unpackDeltas(data, count) }
+
+// verifGvarFromRaw builds a one-glyph gvar from the raw bytes of a GlyphVariationData table, the way
+// newGvar does for every glyph.
+func verifGvarFromRaw(raw []byte, axisCount int, shared [][]int16, pointCountAll int) (gvar, []tupleVariation, error) {
+	vs, _, err := tables.ParseGlyphVariationData(raw, axisCount)
+	if err != nil {
+		return gvar{}, nil, err
+	}
+	tvs := make([]tupleVariation, len(vs.TupleVariationHeaders))
+	for j, header := range vs.TupleVariationHeaders {
+		tvs[j].TupleVariationHeader = header
+	}
+	err = parseGlyphVariationSerializedData(vs.SerializedData, vs.HasSharedPointNumbers(), pointCountAll, false, tvs)
+	if err != nil {
+		return gvar{}, nil, err
+	}
+	// the shared tuples go through newGvar itself (active index cache)
+	var tb tables.Gvar
+	for _, t := range shared {
+		c := make([]tables.Coord, len(t))
+		for i, v := range t {
+			c[i] = tables.Coord(v)
+		}
+		tb.SharedTuples.SharedTuples = append(tb.SharedTuples.SharedTuples, tables.Tuple{Values: c})
+	}
+	gv, err := newGvar(tb, nil)
+	if err != nil {
+		return gvar{}, nil, err
+	}
+	gv.variations = [][]tupleVariation{tvs}
+	return gv, tvs, nil
+}
+
+// VerifGvarParseRaw decodes the raw bytes of one GlyphVariationData table (headers by the
+// generated parser, serialized data by parseGlyphVariationSerializedData).
+// pointCountAll includes the four phantom points.
+func VerifGvarParseRaw(raw []byte, axisCount int, pointCountAll int) ([]VerifTupleData, error) {
+	_, tvs, err := verifGvarFromRaw(raw, axisCount, nil, pointCountAll)
+	if err != nil {
+		return nil, err
+	}
+	return verifTupleData(tvs), nil
+}
+
+// VerifGvarApplyRaw decodes the raw GlyphVariationData and applies it (gvar.applyDeltasToPoints) to
+// the given points (contour points followed by the four phantom points) at the given coordinates.
+func VerifGvarApplyRaw(raw []byte, axisCount int, shared [][]int16, coords []VarCoord, pts []VerifContourPoint) ([]VerifContourPoint, error) {
+	gv, _, err := verifGvarFromRaw(raw, axisCount, shared, len(pts))
+	if err != nil {
+		return nil, err
+	}
+	points := verifPoints(pts)
+	gv.applyDeltasToPoints(0, coords, points)
+	out := make([]VerifContourPoint, len(points))
+	for i, p := range points {
+		out[i] = VerifContourPoint{X: p.X, Y: p.Y, On: p.isOnCurve, IsEnd: p.isEndPoint}
+	}
+	return out, nil
+}
+
+// VerifGvarApply runs gvar.applyDeltasToPoints of the font on the given points at the coordinates of the face.
+func (f *Face) VerifGvarApply(gid GID, pts []VerifContourPoint) []VerifContourPoint {
+	points := verifPoints(pts)
+	f.gvar.applyDeltasToPoints(gID(gid), f.coords, points)
+	out := make([]VerifContourPoint, len(points))
+	for i, p := range points {
+		out[i] = VerifContourPoint{X: p.X, Y: p.Y, On: p.isOnCurve, IsEnd: p.isEndPoint}
+	}
+	return out
+}
+
+// VerifInferDelta runs inferDelta.
+func VerifInferDelta(target, prev, next, prevDelta, nextDelta float32) float32 {
+	return inferDelta(target, prev, next, prevDelta, nextDelta)
+}
